@@ -16,7 +16,7 @@
 From Coq Require Import String.
 From Coq Require Import List Arith Bool Lia ZArith.
 Import ListNotations.
-From YP Require Import Base.Str Term.Term Unify.Unify Engine.Deref Engine.Frame Engine.World Engine.CursorFrame.
+From YP Require Import Base.Str Term.Term Unify.Unify Engine.Deref Engine.Frame Engine.Db Engine.World Engine.CursorFrame.
 
 (* ---------------------------------------------------------------- association lists keyed by nat *)
 Lemma aget_aset_eq {V} k (v : V) l : aget Nat.eqb k (aset Nat.eqb k v l) = Some v.
@@ -62,14 +62,16 @@ Proof. intros A B v t H. destruct (B v t H) as [H'|H']; auto. Qed.
 Definition slot_of (o : op) : option nat :=
   match o with ONext q | OClose q | ODrain q => Some q | _ => None end.
 
-Lemma cnext_cown fuel d fresh h c : cown (fst (fst (fst (cnext fuel d fresh h c)))) = cown c.
-Proof. unfold cnext. destruct (search fuel d (unbind (ctrail c) h) fresh (cfr c) []); reflexivity. Qed.
-Lemma cdrain_cown fresh : forall m fuel d h c acc names,
-  cown (fst (fst (fst (fst (cdrain m fuel d fresh h c acc names))))) = cown c.
+Lemma cnext_cown fuel d fresh h c : cown (fst (fst (fst (fst (cnext fuel d fresh h c))))) = cown c.
 Proof.
-  induction m as [|m IH]; intros fuel d h c acc names; cbn [cdrain]; [reflexivity|].
+  unfold cnext. destruct (search fuel (unbind (ctrail c) h) fresh (qfid (cown c)) (mkms d (cnf c) (cfr c) [])); reflexivity.
+Qed.
+Lemma cdrain_cown fresh : forall m fuel d h c acc lg,
+  cown (fst (fst (fst (fst (fst (cdrain m fuel d fresh h c acc lg)))))) = cown c.
+Proof.
+  induction m as [|m IH]; intros fuel d h c acc lg; cbn [cdrain]; [reflexivity|].
   pose proof (cnext_cown fuel d fresh h c) as E.
-  destruct (cnext fuel d fresh h c) as [[[c1 h1] r] nm]. cbn [fst] in E.
+  destruct (cnext fuel d fresh h c) as [[[[c1 h1] r] nm] d1]. cbn [fst] in E.
   destruct r; cbn [fst]; try exact E. rewrite IH. exact E.
 Qed.
 
@@ -77,19 +79,19 @@ Section AnyCells.
 Variable P : nat -> bool.
 
 Lemma cdrain_frame fresh : (forall k, P (fresh k) = true) ->
-  forall m fuel d h c acc names c' h' answers err names',
+  forall m fuel d h c acc lg c' h' answers err lg' d',
   closed P h -> cgood P c ->
-  cdrain m fuel d fresh h c acc names = (c', h', answers, err, names') ->
-  cdrain m fuel d fresh (fP P h) c acc names = (c', fP P h', answers, err, names')
+  cdrain m fuel d fresh h c acc lg = (c', h', answers, err, lg', d') ->
+  cdrain m fuel d fresh (fP P h) c acc lg = (c', fP P h', answers, err, lg', d')
   /\ fN P h' = fN P h /\ cgood P c' /\ closed P h' /\ newP P h h'.
 Proof.
-  intros Hf. induction m as [|m IH]; intros fuel d h c acc names c' h' answers err names' C G E.
+  intros Hf. induction m as [|m IH]; intros fuel d h c acc lg c' h' answers err lg' d' C G E.
   - cbn [cdrain] in *. inversion E; subst. refine (conj _ (conj _ (conj _ (conj _ _)))); auto using newP_refl.
   - cbn [cdrain] in *.
-    destruct (cnext fuel d fresh h c) as [[[c1 h1] r] nm] eqn:E1.
-    destruct (@cnext_frame P fresh Hf fuel d _ _ _ _ _ _ C G E1) as [A [EN [G1 [C1 N1]]]].
+    destruct (cnext fuel d fresh h c) as [[[[c1 h1] r] nm] d1] eqn:E1.
+    destruct (@cnext_frame P fresh Hf fuel d _ _ _ _ _ _ _ C G E1) as [A [EN [G1 [C1 N1]]]].
     rewrite A. destruct r as [vals| |k].
-    + destruct (IH fuel d h1 c1 (vals :: acc) (nm ++ names) _ _ _ _ _ C1 G1 E) as [A2 [EN2 [G2 [C2 N2]]]].
+    + destruct (IH fuel d1 h1 c1 (vals :: acc) (nm ++ lg) _ _ _ _ _ _ C1 G1 E) as [A2 [EN2 [G2 [C2 N2]]]].
       split; [exact A2|]. split; [congruence|]. split; [exact G2|]. split; [exact C2|].
       eapply newP_trans; eauto.
     + inversion E; subst. refine (conj _ (conj _ (conj _ (conj _ _)))); auto.
@@ -107,13 +109,15 @@ Qed.
 
 Variables n i : nat.
 
-(* next / close / drain of the generator in slot q, when that generator is over P and allocates in P *)
+(* next / close / drain of the generator in slot q, when that generator is over P and allocates in P.  The step may
+   write the fact store of the engine (assert / retract goals in clause bodies); it changes nothing else in the record
+   but slot q and the atom table *)
 Lemma qop_frame fuel o q e h e' h' ob : slot_of o = Some q -> closed P h ->
   (forall c, aget Nat.eqb q (cursors e) = Some c -> cgood P c /\ forall k, P (ccell n i (cown c) k) = true) ->
   estep fuel n i o e h = (e', h', ob) ->
   estep fuel n i o e (fP P h) = (e', fP P h', ob)
   /\ fN P h' = fN P h /\ closed P h' /\ newP P h h'
-  /\ edb e' = edb e /\ nstart e' = nstart e
+  /\ nstart e' = nstart e
   /\ match aget Nat.eqb q (cursors e) with
      | None => e' = e
      | Some c => exists c', cursors e' = aset Nat.eqb q c' (cursors e) /\ cgood P c' /\ cown c' = cown c
@@ -126,17 +130,17 @@ Proof.
       [destruct (Hc c eq_refl) as [G Hf]
       |inversion E; subst; repeat (split; [solve [auto using newP_refl]|]); reflexivity]).
   - pose proof (cnext_cown fuel (edb e) (ccell n i (cown c)) h c) as Ow.
-    destruct (cnext fuel (edb e) (ccell n i (cown c)) h c) as [[[c1 h1] r] nm] eqn:E1. cbn [fst] in Ow.
-    destruct (@cnext_frame P _ Hf fuel (edb e) _ _ _ _ _ _ C G E1) as [A [EN [G1 [C1 N1]]]].
+    destruct (cnext fuel (edb e) (ccell n i (cown c)) h c) as [[[[c1 h1] r] nm] d1] eqn:E1. cbn [fst] in Ow.
+    destruct (@cnext_frame P _ Hf fuel (edb e) _ _ _ _ _ _ _ C G E1) as [A [EN [G1 [C1 N1]]]].
     rewrite A. inversion E; subst. repeat (split; [solve [auto]|]). exists c1. auto.
   - destruct (@cclose_frame P h c C G) as [A [EN [G1 [C1 N1]]]].
     rewrite A. destruct (cclose h c) as [c1 h1] eqn:E1. cbn [fst snd] in *.
     inversion E; subst. repeat (split; [solve [auto]|]). exists c1. split; [reflexivity|]. split; [exact G1|].
     unfold cclose in E1. inversion E1; reflexivity.
   - pose proof (cdrain_cown (ccell n i (cown c)) fuel fuel (edb e) h c [] []) as Ow.
-    destruct (cdrain fuel fuel (edb e) (ccell n i (cown c)) h c [] []) as [[[[c1 h1] answers] err] nm] eqn:E1.
+    destruct (cdrain fuel fuel (edb e) (ccell n i (cown c)) h c [] []) as [[[[[c1 h1] answers] err] nm] d1] eqn:E1.
     cbn [fst] in Ow.
-    destruct (cdrain_frame _ Hf _ _ _ _ _ _ _ _ _ _ _ _ C G E1) as [A [EN [G1 [C1 N1]]]].
+    destruct (cdrain_frame _ Hf _ _ _ _ _ _ _ _ _ _ _ _ _ C G E1) as [A [EN [G1 [C1 N1]]]].
     rewrite A. inversion E; subst. repeat (split; [solve [auto]|]). exists c1. auto.
 Qed.
 
@@ -170,15 +174,6 @@ Proof.
   pose proof (uargs_tin args) as F. rewrite Forall_forall in F. auto.
 Qed.
 
-Lemma retract_list_frame h fresh args fs : closed P h -> (forall k, P (fresh k) = true) -> Forall (tin P) args ->
-  retract_list (fP P h) fresh args fs = retract_list h fresh args fs.
-Proof.
-  intros C Hf Ha. induction fs as [|f r IH]; [reflexivity|].
-  cbn [retract_list]. rewrite IH. rewrite !unify_arrays2_eq.
-  destruct (@unify_arrays_frame P UF h args (map (rn fresh) f) C Ha (lin_rn P fresh f Hf)) as [E _].
-  rewrite E. destruct (unify_arrays UF h args (map (rn fresh) f)); reflexivity.
-Qed.
-
 Lemma cstart_good ow nm args : cgood P (cstart ow nm (map (rn (ucell n i)) args)).
 Proof.
   unfold cstart, cgood. cbn [cargs cfr ctrail].
@@ -205,7 +200,7 @@ Proof.
   intros So C I E.
   assert (Hc : forall c, aget Nat.eqb q (cursors e) = Some c -> cgood P c /\ forall k, P (ccell n i (cown c) k) = true).
   { intros c Hq. split; [exact (einv_get e q c I Hq)|apply P_ccell]. }
-  destruct (qop_frame P n i fuel o q e h e' h' ob So C Hc E) as [A [EN [C1 [N1 [_ [_ M]]]]]].
+  destruct (qop_frame P n i fuel o q e h e' h' ob So C Hc E) as [A [EN [C1 [N1 [_ M]]]]].
   refine (conj A (conj EN (conj _ (conj C1 N1)))).
   destruct (aget Nat.eqb q (cursors e)) as [c|].
   - destruct M as [c' [Ec [G' _]]]. unfold einv. rewrite Ec. apply Forall_aset; auto.
@@ -222,7 +217,7 @@ Proof.
   intros C I E. destruct o as [nm|app nm args|nm args|nm ar rows|ov script| |q nm args|q|q|q|ts]; cbn [estep] in *.
   - inversion E; subst. fin5; auto using newP_refl.
   - rewrite (den2_args_filter h args C). inversion E; subst. fin5; auto using newP_refl.
-  - rewrite (retract_list_frame h (ccell n i (nstart e)) (map (rn (ucell n i)) args)
+  - rewrite (@retract_list_frame P h (ccell n i (nstart e)) (map (rn (ucell n i)) args)
                (find_facts (edb e) nm (length args)) C (P_ccell (nstart e)) (uargs_tin args)).
     destruct (retract_list h (ccell n i (nstart e)) (map (rn (ucell n i)) args) (find_facts (edb e) nm (length args)));
       inversion E; subst; fin5; auto using newP_refl.
